@@ -543,7 +543,7 @@ def repetition(q: int, right: int, length: int, swap: bool) -> bool:
     """
     what = H.P('what', 'str')
     with H.NoTracing():
-        L = int(H.deep_realize(length))
+        L = 4 * int(H.deep_realize(length))          # operand lengths 0, 4, 8, (12)
         if what == 'str':
             left = 'x' * L
             true_size = lambda r: sys.getsizeof('') + (max(r, 0) * L)          # ASCII: 1 byte per character
@@ -787,10 +787,10 @@ def conditions(tier, seed):
         lo, hi, ml = (-1, 6, 2) if q else (-3, 40, 3)
         for ln in range(ml + 1):
             add('repetition[%s,small,len%d]' % (what, ln), 'repetition',
-                'Q in [-1,400], count in [%d,%d], operand length %d, both orders' % (lo, hi, ln),
+                'Q in [-1,400], count in [%d,%d], operand length %d, both orders' % (lo, hi, 4 * ln),
                 150 if q else 900, what=what, rlo=lo, rhi=hi, lenlo=ln, maxlen=ln)
         lo = 9999 if q else 9990
-        add('repetition[%s,huge]' % what, 'repetition', 'Q in [1,400], count in [%d,10000], operand length in [0,%d]' % (lo, ml),
+        add('repetition[%s,huge]' % what, 'repetition', 'Q in [1,400], count in [%d,10000], operand length in {0,4,..,%d}' % (lo, 4 * ml),
             150 if q else 900, what=what, rlo=lo, rhi=10000, maxlen=ml, qlo=1)
     for which in QUOTA_EXPRS:
         add('quota_flow[%s]' % which, 'quota_flow', 'Q in [-1,400], stubbed size of the value in [0,500]; ' + QUOTA_EXPRS[which],
